@@ -92,9 +92,12 @@ Post(s, u, c) ==
                    !.p25 = IF c.p >= 2 THEN [s.p25 EXCEPT ![c.p - 1] = c.v[1]] ELSE s.p25]
     [] c.op = "close_rx_pipe" -> [s EXCEPT !.en = SetBit(s.en, c.v, FALSE)]
     [] c.op = "open_tx_pipe" ->
-         \* TX address always; with auto-ack on pipe 0 the ACK must come back through pipe 0 (C08.TxAck)
-         IF Bit(s.aa, 0) = 1 /\ InTx(s)
-         THEN [s EXCEPT !.txa = Overlay(s.txa, c.v), !.p0 = Overlay(s.p0, c.v), !.en = SetBit(s.en, 0, TRUE)]
+         \* TX address always.  With auto-ack on pipe 0 - and only then - RX pipe 0 is appropriated with the TX address
+         \* (docs: "Be sure to configure auto_ack for data pipe 0 before calling open_tx_pipe()"); in TX mode it must also
+         \* be open so that the ACK is received (C08.TxAck).
+         IF Bit(s.aa, 0) = 1
+         THEN [s EXCEPT !.txa = Overlay(s.txa, c.v), !.p0 = Overlay(s.p0, c.v),
+                        !.en = IF InTx(s) THEN SetBit(s.en, 0, TRUE) ELSE s.en]
          ELSE [s EXCEPT !.txa = Overlay(s.txa, c.v)]
     [] c.op = "listen=" ->
          IF c.v THEN    \* enter RX: pipe 0 back on the user's address, or closed (C08.RxP0); CE high
@@ -115,7 +118,7 @@ Post(s, u, c) ==
 \* calls whose register effect is deliberately left open by the documentation: the observed value is accepted
 \* for the listed fields only (named deviations, DESIGN.md section 6/C03)
 FreeFields(s, u, c) ==
-  CASE c.op = "open_tx_pipe" /\ ~(Bit(s.aa, 0) = 1 /\ InTx(s)) -> {"p0", "en"}   \* outside TX mode pipe 0 may or may not be prepared
+  CASE c.op = "open_tx_pipe" /\ Bit(s.aa, 0) = 1 /\ ~InTx(s) -> {"en"}   \* outside TX mode pipe 0 may already be opened or not
     [] c.op = "listen=" /\ ~c.v /\ Bit(s.aa, 0) = 0 -> {"en"}
     [] c.op = "start_carrier_wave" /\ Bit(s.aa, 0) = 0 -> {"en"}
     [] OTHER -> {}
